@@ -12,6 +12,7 @@ import MD.Model.Validate
 import MD.Model.Plot
 import MD.Model.Axes
 import MD.Model.Heap
+import MD.Model.PavaArr
 /-! JSON-lines driver: one request per line on stdin, one response per line on stdout. -/
 open Lean MD
 
@@ -217,6 +218,12 @@ def handle (j : Json) : Except String Json := do
     let y ← getRats j "y"
     let w ← getRats j "w"
     pure (blocksJson (pavaMean (List.zip y w)))
+  | "pava_arr" =>
+    -- the in-place array program (MD/Model/PavaArr.lean): fitted values and r[: b + 2]
+    let y ← getRats j "y"
+    let w ← getRats j "w"
+    let (x, r) := MD.Arr.pavaArr (List.zip y w)
+    pure (Json.mkObj [("x", ratsToJson x), ("r", natsToJson r)])
   | "gpava" =>
     let f ← getStr j "f"
     let α ← getRat j "level"
